@@ -83,6 +83,30 @@ class SNum:
         self.nonneg = nonneg if nonneg is not None else fresh(name + '_ge0', 'bool')
 
 
+class SBasisFn:
+    """a basis function psi: R^d -> R handed in by the caller (assumption A-basis: called with a vector of the state dimension it
+    returns one real number and has no effect on the arguments of the function under verification)"""
+
+    def __init__(self, dim):
+        self.dim = dim
+
+
+INDEX_USES = []       # (index term, role of the axis / list it indexed): how np.array(<nested comprehension>) learns the roles of its axes
+
+
+def note_index_use(idx, role):
+    if isinstance(idx, z3.ExprRef) and z3.is_app_of(idx, z3.Z3_OP_ITE) and z3.is_app_of(idx.arg(0), z3.Z3_OP_LT) and idx.arg(0).arg(0).eq(idx.arg(2)):
+        idx = idx.arg(2)            # python index normalisation  If(i < 0, i + n, i)
+    if role is not None and isinstance(idx, z3.ExprRef) and z3.is_const(idx) and idx.decl().kind() == z3.Z3_OP_UNINTERPRETED:
+        if len(INDEX_USES) > 4000:
+            del INDEX_USES[:2000]
+        INDEX_USES.append((idx, role))
+
+
+def index_roles_of(var):
+    return {r for t, r in INDEX_USES if t.eq(var)}
+
+
 class SMaxRank:
     """`max_rank` style value: positive int or inf"""
 
@@ -279,6 +303,22 @@ class SList:
     @fn.setter
     def fn(self, f):
         self._fn = f if (f is None or isinstance(f, _Memo)) else _Memo(f)
+        self.__dict__.pop('writes', None)       # the write log describes the previous element function only
+
+    def get_resolved(self, idx):
+        """read by the code under verification: the slot writes since the element function was last replaced are resolved with
+        the prover under the current path condition (a read of slot i - 1 after a write to slot i sees the old entry, not a
+        merge of both)"""
+        ws = self.__dict__.get('writes')
+        if not ws or getattr(self, 'transients', None) or self.items is not None:
+            return self.get(idx)
+        for i0, val, old in reversed(ws):
+            same = same_index(idx, i0)
+            if same is True:
+                return val
+            if same is None:
+                return self.get(idx)
+        return ws[0][2](zi(idx))
 
     def __init__(self, ref, length, fn=None, items=None, kind='any'):
         self.ref = zi(ref)
@@ -318,6 +358,8 @@ class SList:
             return res
         # memoised per element function: clauses are rebuilt many times over the same index terms (bound variables are named by
         # nesting depth), and element functions of results are closures over the element functions of their operands
+        if 'index_role' in self.__dict__:
+            note_index_use(zi(idx), self.index_role)
         return self.fn(zi(idx))
 
     def to_fn(self):
@@ -367,7 +409,9 @@ class SList:
         tag = self.__dict__.get('role_tag')
         if tag is not None and isinstance(val, SArr):
             r = val.__dict__.get('roles')
-            if r is None and len(val.shape) >= len(tag):
+            if r is None and self.__dict__.get('role_strict'):
+                del self.__dict__['role_tag']                                       # roles must be derived, not declared
+            elif r is None and len(val.shape) >= len(tag):
                 val.roles = tuple(tag) + (None,) * (len(val.shape) - len(tag))      # declared by the contract for this list
             elif r is not None and any(not (x == y or (x, y) == ('r', 'k')) for x, y in zip(r[:len(tag)], tag)):
                 # (an operator applied to a ket leg - its row axis - is a ket leg again)
@@ -381,13 +425,17 @@ class SList:
         self.to_fn()
         old = self.fn
         i0 = zi(idx)
+        ws = list(self.__dict__.get('writes') or [])
+        if ws and ws[-1][0].eq(i0):
+            old, ws = ws[-1][2], ws[:-1]        # the slot written last is overwritten: its previous content is dead
         self.fn = lambda j, old=old, i0=i0, val=val: val_ite(j == i0, val, old(j))
+        self.writes = ws + [(i0, val, old)]
 
     def snapshot(self):
         """immutable view (same ref) for old() references"""
         v = SList(self.ref, self.length, self.fn, None if self.items is None else list(self.items), self.kind)
         v.transients = dict(getattr(self, 'transients', {}) or {})
-        for extra in ('slice_of', 'split_points', 'role_tag'):
+        for extra in ('slice_of', 'split_points', 'role_tag', 'index_role', 'role_strict'):
             if extra in self.__dict__:
                 setattr(v, extra, self.__dict__[extra])
         return v
